@@ -65,6 +65,14 @@ func (p *Params) Verify(input VerifierInput) error {
 	// to the input matrix.
 	for i, c := range input.SelectedColumns {
 
+		// the opened column combined with the powers of alpha is the c-th entry of uAlpha
+		if c < 0 || c >= len(proof.UAlpha) {
+			return errors.New("invalid proof: selected column out of range")
+		}
+		if EvalBasePolyHorner(proof.OpenedColumns[i], input.Alpha) != proof.UAlpha[c] {
+			return errors.New("invalid proof: opened column and uAlpha do not match")
+		}
+
 		sisHash := make([]koalabear.Element, p.Key.Degree)
 		if err := p.Key.Hash(proof.OpenedColumns[i], sisHash); err != nil {
 			return fmt.Errorf("invalid proof: could not hash the column: %w", err)
